@@ -55,6 +55,7 @@ type pkgSet struct {
 	Pkg   string   `json:"pkg"`   // import path relative to the program's root ("" = main package)
 	Insts []string `json:"insts"` // in id order
 	IDs   []int    `json:"ids"`   // PackageInstanceSets.ID of each (must be 0,1,2,…)
+	Dups  [][2]int `json:"dups"`  // pairs of positions holding the SAME instance (same object, types.Identical arguments)
 }
 
 type result struct {
@@ -83,12 +84,91 @@ func sanitize(s string) string {
 
 func qual(p *types.Package) string { return p.Name() }
 
+// canon prints a type so that identical types (types.Identical) print identically, however they were spelled in the
+// source: byte/uint8, rune/int32, any/interface{}, aliases, parameter names of function types.
+func canon(t types.Type) string {
+	t = types.Unalias(t)
+	switch t := t.(type) {
+	case *types.Basic:
+		switch t.Kind() {
+		case types.Uint8:
+			return "uint8"
+		case types.Int32:
+			return "int32"
+		}
+		return t.Name()
+	case *types.Pointer:
+		return "*" + canon(t.Elem())
+	case *types.Slice:
+		return "[]" + canon(t.Elem())
+	case *types.Array:
+		return fmt.Sprintf("[%d]%s", t.Len(), canon(t.Elem()))
+	case *types.Chan:
+		return "chan " + canon(t.Elem())
+	case *types.Map:
+		return "map[" + canon(t.Key()) + "]" + canon(t.Elem())
+	case *types.Named:
+		name := t.Obj().Name()
+		if t.Obj().Pkg() != nil {
+			name = t.Obj().Pkg().Name() + "." + name
+		}
+		if n := t.TypeArgs().Len(); n > 0 {
+			parts := make([]string, n)
+			for i := 0; i < n; i++ {
+				parts[i] = canon(t.TypeArgs().At(i))
+			}
+			name += "[" + strings.Join(parts, ",") + "]"
+		}
+		return name
+	case *types.Interface:
+		if t.Empty() {
+			return "any"
+		}
+	case *types.Signature:
+		tuple := func(tp *types.Tuple) []string {
+			parts := make([]string, tp.Len())
+			for i := range parts {
+				parts[i] = canon(tp.At(i).Type())
+			}
+			return parts
+		}
+		s := "func(" + strings.Join(tuple(t.Params()), ",") + ")"
+		switch r := tuple(t.Results()); len(r) {
+		case 0:
+		case 1:
+			s += " " + r[0]
+		default:
+			s += " (" + strings.Join(r, ",") + ")"
+		}
+		return s
+	case *types.Struct:
+		parts := make([]string, t.NumFields())
+		for i := range parts {
+			parts[i] = t.Field(i).Name() + " " + canon(t.Field(i).Type())
+		}
+		return "struct{" + strings.Join(parts, "; ") + "}"
+	}
+	return types.TypeString(t, qual)
+}
+
 func typeList(ts []types.Type) string {
 	parts := make([]string, len(ts))
 	for i, t := range ts {
-		parts[i] = types.TypeString(t, qual)
+		parts[i] = canon(t)
 	}
 	return strings.Join(parts, ",")
+}
+
+func identicalLists(a, b []types.Type) bool {
+	if len(a) != len(b) {
+		return false
+	}
+	for i := range a {
+		if !types.Identical(a[i], b[i]) {
+			return false
+		}
+	}
+	return true
 }
 
 func objName(o types.Object) string {
@@ -142,9 +222,15 @@ func compile(dir, mod string, minify, wantSets bool) (js []byte, sets []pkgSet, 
 					continue
 				}
 				ps := pkgSet{Pkg: strings.TrimPrefix(strings.TrimPrefix(p, mod), "/")}
-				for _, inst := range all[p].Values() {
+				vals := all[p].Values()
+				for i, inst := range vals {
 					ps.Insts = append(ps.Insts, objName(inst.Object)+"<"+typeList(inst.TNest)+";"+typeList(inst.TArgs)+">")
 					ps.IDs = append(ps.IDs, all.ID(inst))
+					for j := 0; j < i; j++ {
+						if vals[j].Object == inst.Object && identicalLists(vals[j].TNest, inst.TNest) && identicalLists(vals[j].TArgs, inst.TArgs) {
+							ps.Dups = append(ps.Dups, [2]int{j, i})
+						}
+					}
 				}
 				sets = append(sets, ps)
 			}
